@@ -151,6 +151,18 @@ def _entries():
         return out, unit_of(st.sum)
     E['ApertureStats'] = (True, True, e_stats)
 
+    def e_stats_lb(d, e, nd):
+        # integer-valued local background level (scalar) without sigma clip
+        ap = CircularAperture(POS, 3.5)
+        src = nd if nd is not None else d
+        st = ApertureStats(src, ap, error=None if nd is not None else e,
+                           local_bkg=q(3, src), sigma_clip=None)
+        out = {p: val(getattr(st, p)) for p in
+               ('sum', 'sum_err', 'mean', 'median', 'std', 'xcentroid',
+                'ycentroid', 'min', 'max')}
+        return out, unit_of(st.sum)
+    E['ApertureStats/local_bkg'] = (True, True, e_stats_lb)
+
     def e_bkg(d, e, nd):
         b = Background2D(d, (10, 11), filter_size=3)
         return dict(background=val(b.background),
